@@ -294,14 +294,18 @@ func c09RunChild(c *c09Case, timeout time.Duration) c09ChildRes {
 var c09FrameRe = regexp.MustCompile(`^\s+([^\s(][^\s]*)\(`)
 
 // c09RaceFuncs returns, for each of the two accesses of the first race report, the first
-// frame inside eino (outside the harness), or the top frame when there is none.
-func c09RaceFuncs(report string) []string {
+// frame inside eino (outside the harness), or the top frame when there is none; `writers`
+// is the de-duplicated subset belonging to the WRITE accesses (at least one access of a race
+// is a write).  The signature is built from the writers only: which reader happens to be
+// caught against a racy write varies from run to run, the writer identifies the defect.
+func c09RaceFuncs(report string) (all []string, writers []string) {
 	i := strings.Index(report, "WARNING: DATA RACE")
 	if i < 0 {
-		return nil
+		return nil, nil
 	}
 	lines := strings.Split(report[i:], "\n")
 	var stacks [][]string
+	var isWrite []bool
 	var cur []string
 	inAccess := false
 	for _, ln := range lines[1:] {
@@ -318,6 +322,7 @@ func c09RaceFuncs(report string) []string {
 				stacks = append(stacks, cur)
 			}
 			cur, inAccess = nil, true
+			isWrite = append(isWrite, strings.Contains(strings.ToLower(t), "write"))
 			continue
 		}
 		if !inAccess {
@@ -327,8 +332,8 @@ func c09RaceFuncs(report string) []string {
 			cur = append(cur, m[1])
 		}
 	}
-	var out []string
-	for _, st := range stacks {
+	seenW := map[string]bool{}
+	for si, st := range stacks {
 		pick := ""
 		for _, f := range st {
 			if strings.Contains(f, "github.com/cloudwego/eino/") && !strings.Contains(f, "/verifharness/") {
@@ -346,10 +351,15 @@ func c09RaceFuncs(report string) []string {
 				pick = pick[:j] + pick[k+1:]
 			}
 		}
-		out = append(out, pick)
+		all = append(all, pick)
+		if si < len(isWrite) && isWrite[si] && !seenW[pick] {
+			seenW[pick] = true
+			writers = append(writers, pick)
+		}
 	}
-	sort.Strings(out)
-	return out
+	sort.Strings(all)
+	sort.Strings(writers)
+	return all, writers
 }
 
 // ---- one case: run, compare, account ----
@@ -415,10 +425,16 @@ func c09Evaluate(ctx *vh.Ctx, c *c09Case, ans *c09OracleAns) {
 	stack := c.Kind
 	// (1) race report
 	if res.ExitCode == 66 || strings.Contains(res.Stderr, "WARNING: DATA RACE") {
-		fs := c09RaceFuncs(res.Stderr)
+		fs, ws := c09RaceFuncs(res.Stderr)
 		ctx.Res.Dist("outcome:race")
+		sig := "C09:race:write-in:" + strings.Join(ws, "|")
+		if c.ParentCap >= 3 && (strings.Contains(res.Stderr, "eino/internal/callbacks.") || strings.Contains(res.Stderr, "eino/callbacks.(*handlerImpl)")) {
+			// one shape, many manifestations (append/append, append/On, a foreign handler read
+			// through the overwritten slot …): the shape that matters names the finding
+			sig = "C09:race:parent-ctx-handlers-spare-capacity"
+		}
 		ctx.Res.Disagree(vh.Disagreement{
-			Signature: "C09:race:" + strings.Join(fs, "|"),
+			Signature: sig,
 			What:      "data race reported by the Go race detector while " + fmt.Sprint(len(c.Calls)) + " goroutines used one compiled " + stack + " object (racing functions: " + strings.Join(fs, " / ") + ")",
 			Case:      c,
 			Model:     map[string]any{"expected": "no data race; every concurrent call returns what it returns alone"},
